@@ -85,6 +85,16 @@ EXPLANATION = ("Deductive (pyvc, sidecar contracts/mapping_c.py, real source re-
                "(the instantiation across the two functions is meta-level, see ASSUMPTIONS). "
                "(10) all_dot_brackets (full contract): one text per member of self.bpseq.all_dot_brackets, in order; text d is py_join of the lines LN[d], which are per strand the header, the sequence and the strand's slice of member d's structure (cut exactly like dot_bracket).")
 
+# glue functions of the property's observe_at list (contracts/glue_c.py; texts shared in props/_glue_text.py)
+from props import _glue_text as _GT
+DEDUCTIVE += [{"module": "rnapolis.adapter", "sidecar": "contracts.glue_c",
+               "targets": ["extract_secondary_structure_from_external", "parse_external_output", "process_external_tool_output"]},
+              {"module": "rnapolis.annotator", "sidecar": "contracts.glue_c", "targets": ["extract_base_interactions", "extract_secondary_structure"]}]
+TRUSTED = list(TRUSTED) + _GT.TRUSTED
+ASSUMPTIONS = list(ASSUMPTIONS) + _GT.ASSUMPTIONS
+EXPLANATION = EXPLANATION + _GT.C06
+
+
 def bounded(tier, seed):
     rng = rng_for(seed, "c06")
     paths = [p for p in G.corpus("quick") if os.path.getsize(p) < 300000]
